@@ -517,7 +517,7 @@ class C18(Check):
 
     # ---------------------------------------------------------------- generation
     def budget(self):
-        return 700 if self.tier == "quick" else 8000
+        return 700 if self.tier == "quick" else 30000
 
     def search_budget(self):
         return 1500 if self.tier == "quick" else 10000
@@ -554,7 +554,9 @@ class C18(Check):
         return [[[rng.randrange(6), rng.choice([-1, 0, 1, 2])] for _ in range(n_steps)] for _ in range(n_eps)]
 
     def gen_single(self, rng):
-        spec = common.gen_instance(rng, max_jobs=4, max_machines=3, max_ops=3)
+        big = self.tier == "thorough" and rng.random() < 0.3
+        spec = common.gen_instance(rng, max_jobs=5 if big else 4, max_machines=4 if big else 3,
+                                   max_ops=4 if big else 3, big=big)
         n_ops = sum(len(j) for j in spec)
         full = rng.random() < 0.8
         return {"kind": "single", "spec": spec, "builder": rng.randrange(4), "cfg": self.gen_cfg(rng),
